@@ -55,6 +55,7 @@ type Config struct {
 	StepBudget int           // controller decisions; 0 = unlimited
 	TimerP     float64       // probability that fake time advances although goroutines are runnable
 	IdleLimit  time.Duration // simulated time with nothing runnable => deadlock (default 2h)
+	AfterMain  int           // scheduler steps granted to the remaining goroutines after main has returned (default 300000)
 	TraceOn    bool
 }
 
@@ -69,6 +70,7 @@ type Result struct {
 	Deadlock   bool
 	Blocked    []string
 	Budget     bool
+	Leaked     bool // goroutines were still running long after main had returned
 	Panic      string // non-empty: a simulated goroutine panicked (value + stack)
 	PanicG     string
 	Exit       *int // os.Exit(code) called by simulated code
@@ -80,7 +82,7 @@ type Result struct {
 
 // Failed reports whether the run ended abnormally (the process must not be reused).
 func (r *Result) Failed() bool {
-	return r.Deadlock || r.Budget || r.Panic != "" || r.Exit != nil
+	return r.Deadlock || r.Budget || r.Leaked || r.Panic != "" || r.Exit != nil
 }
 
 type Sim struct {
@@ -433,6 +435,10 @@ func Run(cfg Config, main func()) Result {
 		root.park()
 		main()
 	}()
+	mainDoneAt := -1
+	if cfg.AfterMain <= 0 {
+		cfg.AfterMain = 300000
+	}
 	var parked []*G
 	take := func(ev event) {
 		if ev.done {
@@ -467,6 +473,14 @@ func Run(cfg Config, main func()) Result {
 		if cfg.StepBudget > 0 && S.res.Steps >= cfg.StepBudget {
 			S.res.Budget = true
 			break
+		}
+		if S.mainDone {
+			if mainDoneAt < 0 {
+				mainDoneAt = S.res.Steps
+			} else if S.res.Steps-mainDoneAt > cfg.AfterMain {
+				S.res.Leaked = true
+				break
+			}
 		}
 		if len(parked) == 0 {
 			// everyone is blocked: let the fake clock advance by blocking ourselves
@@ -532,7 +546,7 @@ func Run(cfg Config, main func()) Result {
 		g.resume <- struct{}{}
 		raceOn()
 	}
-	if S.res.Deadlock || S.res.Budget {
+	if S.res.Deadlock || S.res.Budget || S.res.Leaked {
 		raceOff()
 		S.gmu.Lock()
 		for _, g := range S.all {
